@@ -459,6 +459,16 @@ pub fn cells(tier: Tier) -> Vec<CellPlan> {
             v.push(plan(big_cell(&format!("sizes-{max}-{i}"), max, lens), 0, 0.05));
         }
     }
+    // Fine sweep of the second payload around the point where two entities stop fitting together.
+    for &max in &[48usize, 100, 1200] {
+        for a in [max as u16 / 3, max as u16 / 2] {
+            let hi = max as u16 - a;
+            let lo = hi.saturating_sub(if q { 36 } else { 48 }).max(5);
+            for b in lo..=hi {
+                v.push(plan(big_cell(&format!("sweep-{max}-{a}-{b}"), max, &[a, b]), 0, 0.02));
+            }
+        }
+    }
     // Relationship graphs evolving through insert / replace / remove / despawn / marker toggles.
     for &max in &[40usize, 1200] {
         let mut c = cells::base(&format!("graph-{max}"), "C10");
@@ -476,6 +486,7 @@ pub fn cells(tier: Tier) -> Vec<CellPlan> {
             Op::ClearParent(2),
             Op::Unmark(1),
             Op::Mark(1),
+            Op::ReMark(1),
             Op::Despawn(3),
         ];
         c.rounds = if q { 3 } else { 4 };
